@@ -11,7 +11,7 @@ CHECKS = {
              design="7/C01", note="Reference interpreter oracle/refdec.py (written from the property statements) and the pinned layout snapshot are trusted; shapes are each-choice, not all combinations."),
  "C02": dict(text="For every byte string within the length bounds and every explored shape: if decoding accepts (strict, or warn with value warnings only) the re-encoded chunks are exactly the input slices; relational, no model.",
              design="7/C02", note=""),
- "C03": dict(text="Every size field of every explored shape symbolic over its full width (and nested pairs), every byte string up to N for region-bearing types, and one inductive step of the constraint algebra from an arbitrary pre-state: outcome class, error attributes and emitted events equal the reference semantics.",
+ "C03": dict(text="Every size field of every explored shape symbolic over its full width (and nested pairs), every byte string up to N for region-bearing real types and for synthetic types nesting regions three deep, and one inductive step of the constraint algebra from an arbitrary pre-state: outcome class, error attributes and emitted events equal the reference semantics.",
              design="7/C03", note="Unit steps assume the representation invariant stated in harness/c03_unit.py and skip lengths <= 4."),
  "C04": dict(text="Every primitive type decoded from every value of its width (accept iff in the pinned set; error attributes; allowed set equal to the pinned one, decided on a fresh symbolic member) and every constrained leaf of the explored shapes symbolic over its width in context.",
              design="7/C04", note=""),
@@ -31,7 +31,7 @@ CHECKS = {
              design="7/C20", note="The snapshot oracle/pinned/layout.json is the trusted 'pinned TPM 2.0 layout'; it was taken from the tree after the fix commits and audited as described in DESIGN.md."),
  "C08": dict(text="Warn-mode decode of every byte string up to N for region-bearing types and of size/value variants of shapes: nothing but the two documented value errors aborts, the emitted fields tile the input (resuming at the declared end after an overrun/shortfall), value-only problems equal the lenient reference interpretation with one warning after each offending event.",
              design="7/C08", note="One known finding (AssertionError in process_response, same site as C06) filtered by call site; six warn-mode defects were repaired by fix commits."),
- "C09": dict(text="Stream shapes of 1-2 (thorough 3) generated command/response pairs, full-range leaves and the session attribute bytes symbolic: the stream decode equals the harness-chained single decodes (response gets the command's code and encrypt request) and events_to_objs yields the single decodes' objects in order.",
+ "C09": dict(text="Stream shapes of 1-2 (thorough 3) generated command/response pairs (sessions, encrypt request on either of two sessions, failed and bad-tag answers, encrypting pairs next to session-less ones), full-range leaves, session attribute bytes and - for parameterless commands - the command code symbolic: the stream decode equals the harness-chained single decodes (response gets the command's code and encrypt request) and events_to_objs yields the single decodes' objects in order.",
              design="7/C09", note=""),
  "C10": dict(text="Explored shapes and streams through a counting iterator: at every event at most one byte beyond the emitted fields was pulled; every cut's events are a prefix containing every complete field; five other source kinds give identical events; the hex front-end pulls no further than the completing character (all texts up to L).",
              design="7/C10", note=""),
